@@ -28,6 +28,26 @@ R2_EXCEPTIONS = {
         "the same index was looked up and found at the top of the function under the same peers write guard; "
         "remove_reconnected_peer in between removes only a peer with a different index",
 }
+def _handshake_ok_marks_connected(prog):
+    """every Ok return of Peer::handle_handshake_response has assigned peer_status = Connected (so the peer that just
+    authenticated can never be the Disconnected 'old instance' that remove_reconnected_peer removes)"""
+    from . import c17
+    from ..paths import Explorer
+    from .. import gate
+    hb = prog.body(c17.HR)
+    if hb is None:
+        return False
+    marks = {bb for (b, bb, kind, e) in c17.mark_sites(prog) if b.path == c17.HR and kind == "status"}
+    if not marks:
+        return False
+    ok_accept = gate.make_accept(hb, return_tags={"Ok"})
+    found = Explorer(hb).explore(0, blocked=marks, accept=lambda x, env: "ok" if ok_accept(x, env) == "return-Ok" else None)
+    return not found
+
+
+R2_EXCEPTION_PRECONDITIONS = {
+    (CORE + "io::network::Network::handle_handshake_response::{closure#0}", "find_peer_by_index_mut"): _handshake_ok_marks_connected,
+}
 R3_EXCEPTIONS = {
     (CORE + "consensus::block::Block::generate_consensus_values::{closure#0}", CORE + "consensus::block::Block::generate"):
         "the block is re-loaded from the node's own storage, where it was written after passing validation; not peer-chosen bytes",
@@ -204,6 +224,8 @@ def run(prog, tier, extra=None):
         if pre:
             res.instance(R2)
             exc = R2_EXCEPTIONS.get((b.path, pre))
+            if exc and (b.path, pre) in R2_EXCEPTION_PRECONDITIONS and not R2_EXCEPTION_PRECONDITIONS[(b.path, pre)](prog):
+                exc = None      # the invariant the exception rests on no longer holds
             if exc:
                 res.sample({"rule": R2, "site": b.loc(bb), "value": pre, "exception": exc})
                 continue
